@@ -56,6 +56,11 @@ func c08TimerScenarios() []c08TimerScenario {
 		{"passive: selected then deselected", false, "T7", []string{"sel", "desel"}, "drop:T7", NS},
 		{"passive: select, deselect, select", false, "T7", []string{"sel", "desel", "sel"}, "keep", S},
 		{"passive: duplicate deselect does not re-arm a cancelled dwell", false, "T7", []string{"sel", "desel", "sel", "sel"}, "keep", S},
+		// a dwell timer armed BEFORE the session was selected must be gone: the Deselect comes half a T7 after TCP-up,
+		// so a stale arm would fire half a T7 early (after seeded change C05b-1; C05 runs these too)
+		{"passive: selected, half a dwell later deselected", false, "T7", []string{"sel", "pause", "desel"}, "drop:T7", NS},
+		{"active: selected, half a dwell later deselected by the peer", true, "T7", []string{"rsp:0", "pause", "desel"}, "drop:T7", NS},
+		{"passive: select, pause, deselect, pause, select", false, "T7", []string{"sel", "pause", "desel", "pause", "sel"}, "keep", S},
 		// T8
 		{"passive: frame stalls after 6 bytes", false, "T8", []string{"sel", "partial"}, "drop:T8", S},
 		{"active: frame stalls after 6 bytes", true, "T8", []string{"rsp:0", "partial"}, "drop:T8", S},
@@ -140,6 +145,9 @@ func c08RunTimerScenario(sc c08TimerScenario, scale int) (o c08TimerOutcome) {
 			f = mkFrame(sel.Session(), 0, 0, 0, 4, sel.Sys(), nil)
 		case st == "lrsp":
 			f = mkFrame(0xFFFF, 0, 0, 0, 6, sel.Sys(), nil)
+		case st == "pause":
+			time.Sleep(T / 2)
+			continue
 		case st == "partial":
 			ref = time.Now()
 			_ = p.WriteRaw(mkFrame(0xFFFF, 0, 0, 0, 5, sysOf(sys), nil).Wire()[:6])
@@ -299,4 +307,35 @@ func c08Timers(c *Ctx) {
 		}()
 	}
 	wg.Wait()
+}
+
+// c05T7Dwell: C05's clause "a session that has reached Selected is never disconnected by a T7 timeout armed before
+// it was selected", end to end on real connections (the T7 scenarios above, judged by the same oracle).
+func c05T7Dwell(c *Ctx) {
+	for _, sc := range c08TimerScenarios() {
+		if sc.timer != "T7" {
+			continue
+		}
+		var o c08TimerOutcome
+		var bad [][3]string
+		for attempt, scale := 0, 1; attempt < 3; attempt, scale = attempt+1, scale*3 {
+			o = c08RunTimerScenario(sc, scale)
+			bad = c08JudgeTimer(c, sc, o, scale)
+			if len(bad) == 0 {
+				break
+			}
+			c.Stat("t7-dwell:retry")
+		}
+		c.Count("t7-dwell|"+sc.name, true)
+		c.Stat("t7-dwell-scenarios")
+		replay := map[string]any{"scenario": sc.name, "role_active": sc.active, "steps": sc.steps, "model_events": o.events,
+			"dropped": o.dropped, "elapsed_ms": o.elapsed.Milliseconds(), "library_sent": o.wire, "state": int(o.state)}
+		for _, b := range bad {
+			what := b[1]
+			if b[0] == "property" && (strings.HasPrefix(what, "drop-time") || what == "unexpected-disconnect") {
+				what = "t7-not-from-current-dwell"
+			}
+			c.Violate(b[0], what, sc.name+": "+b[2], replay)
+		}
+	}
 }
